@@ -442,6 +442,46 @@ fn bulk_streamcomp(o: &Opts, tr: &mut Tr, prop: &str, r: &mut rand::rngs::StdRng
     }
 }
 
+/// Cheap exploration of call sequences built around the real thresholds of the block writer: chunk
+/// sizes that land on / next to the internal block cut (31 745 bytes of poorly compressible
+/// input), empty chunks, output buffers from one byte to plenty, every flush mode at every call.
+/// Only cases the harness finds suspicious (final round trip, or a flush point whose prefix does
+/// not decode to all input so far) are written out; TLC judges those.
+fn bulk_cut_schedules(o: &Opts, tr: &mut Tr, prop: &str, r: &mut rand::rngs::StdRng, n_quick: usize, n_thorough: usize) {
+    const CUT: usize = 31_745;
+    let n = if o.thorough { n_thorough } else { n_quick };
+    for i in 0..n {
+        let (lvl, st, kind) = [(0u8, 0usize, "rand"), (1, 0, "rand"), (6, 0, "rand"), (6, 2, "rand"), (9, 4, "hibytes"), (6, 0, "text"),
+                               (2, 3, "runs"), (1, 0, "sparse3"), (4, 0, "litmatch")][i % 9];
+        let total = 40_000 + r.gen_range(0..60_000usize);
+        let data = gen::data(kind, total, r);
+        let big = 1usize << 20;
+        let mut script: Vec<(usize, usize, usize)> = Vec::new();
+        let mut offered = 0usize;
+        for _ in 0..r.gen_range(2..9) {
+            let to_cut = CUT - (offered % CUT);
+            let add = match r.gen_range(0..8) {
+                0 | 1 => 0,
+                2 => 1,
+                3 => r.gen_range(1..300),
+                4 | 5 => (to_cut as i64 + r.gen_range(-1..=1i64)).max(0) as usize,
+                6 => to_cut + r.gen_range(2..400),
+                _ => r.gen_range(300..20_000),
+            };
+            let out = [1usize, 50, 3000, 40_000, big, big][r.gen_range(0..6)];
+            let fi = [0usize, 0, 2, 3, 1, 7, 6, 5, 2][r.gen_range(0..9)];
+            script.push((add, out, fi));
+            offered += add;
+        }
+        let cfg = Cfg { zlib: i % 2 == 0, level: lvl, strat: st, wbits: 15, api: "params" };
+        let sch = Sched { chunk_pat: "all".into(), outs: vec![big], flush_pct: 0, flush_set: vec![], callback: false, max_points: 8 };
+        comp::SCRIPT.with(|s| *s.borrow_mut() = script);
+        tr.hold();
+        let sus = stream_comp_case(tr, &format!("cutsched-{}-l{}-{}-{}", i, lvl, STRATS[st].0, kind), prop, &data, &cfg, &sch, r, kind);
+        tr.release(sus);
+    }
+}
+
 /// C02: streaming compression under arbitrary schedules and configurations.
 fn scn_streamcomp(o: &Opts, tr: &mut Tr, prop: &str) {
     let mut r = gen::rng(o.seed, 222);
@@ -494,6 +534,7 @@ fn scn_streamcomp(o: &Opts, tr: &mut Tr, prop: &str) {
         stream_comp_case(tr, &format!("sclazy-{}-{}-l{}-o{}", kind, size, lvl, ol), prop, &data, &cfg, &sch, &mut r, kind);
     }
     bulk_streamcomp(o, tr, prop, &mut r, 600, 5000);
+    bulk_cut_schedules(o, tr, prop, &mut r, 400, 4000);
     // stored route: a call whose last byte triggers the internal 31 KiB block cut, with a flush
     // requested in the same call and an output buffer smaller than the block
     let mut ti = 0;
@@ -635,6 +676,7 @@ fn scn_flushes(o: &Opts, tr: &mut Tr, prop: &str) {
             }
         }
     }
+    bulk_cut_schedules(o, tr, prop, &mut r, 400, 4000);
     // history > 32 KiB before a full flush
     for (bi, (kind, size)) in [("period900", 80_000usize), ("zeros", 70_000), ("runs", 50_000)].iter().enumerate() {
         let data = gen::data(kind, *size, &mut r);
